@@ -499,57 +499,128 @@ def dual(e: ast.AST) -> str | None:
 
 # ---------------------------------------------------------------------------------------------
 def check_b(run: Run, prog: Program) -> None:
-    fn = prog.func(f"{BM}._distribute_power")
+    """Reported == commanded.  Roles are bound by dataflow on the normalised functions (simple private
+    helpers spliced in, single-assignment locals substituted): the request / distribution are the
+    parameters typed `Request` / `DistributionResult`; call arguments are matched to the callee's
+    parameter names (keyword == positional); the reported power is what actually flows into the
+    Success / PartialFailure fields."""
+    from ..engine.normalize import normalize
+    from ..engine.terms import flow_eval
+    from ._c15_util import (
+        all_ctors, bound_args, ctor_kind, match_send, method_params, plain_def_value, result_fields,
+        splice_tail_helpers, typed_param,
+    )
+    from ..engine.util import reaching_defs
+
+    def norm(q: str) -> FuncInfo:
+        return normalize(prog, splice_tail_helpers(prog, prog.func(q))[0], diamonds=False)
+
+    def typed(f: FuncInfo, tname: str, default: str) -> str:
+        p = typed_param(f, tname, default)
+        if p is None:
+            raise AnalysisError(f"{f.qual}: no `{tname}` parameter")
+        return p
+
+    fn = norm(f"{BM}._distribute_power")
     run.analysed(fn.qual)
     te = TermEval()
-    defs = [s for s in body_walk(fn.node) if isinstance(s, ast.Assign) and u(s.targets[0]) == "distributed_power_value"]
-    ok = len(defs) == 1 and te.ev(defs[0].value) == Poly.atom("request.power") - Poly.atom("distribution.remaining_power")
-    run.check(ok, "C01.B", fn.qual, "distributed_power_value = request.power - distribution.remaining_power",
+    req, dist = typed(fn, "Request", "request"), typed(fn, "DistributionResult", "distribution")
+    cfg = CFG(fn.node, fn.file)
+    want = Poly.atom(f"{req}.power") - Poly.atom(f"{dist}.remaining_power")
+    ctors = all_ctors(fn.node)
+    if not any(ctor_kind(c) == "Success" for c in ctors):
+        raise AnalysisError(f"{fn.qual}: no Success result is built")
+    ok = True
+    for c in ctors:
+        kind = ctor_kind(c)
+        f = bound_args(c, result_fields(prog, kind), f"{fn.qual}: {kind}(...)")
+        sites = cfg.node_containing(c)
+        if not sites or "succeeded_power" not in f or (kind == "PartialFailure" and "failed_power" not in f):
+            raise AnalysisError(f"{fn.qual}: {kind}(...) site / power fields not found")
+        reported = flow_eval(cfg, sites[0], f["succeeded_power"])
+        if kind == "PartialFailure":
+            reported = reported + flow_eval(cfg, sites[0], f["failed_power"])
+        ok = ok and reported == want
+    run.check(ok, "C01.B", fn.qual, "reported set power = request.power - distribution.remaining_power",
               "the power reported as set is not the request minus the algorithm's remainder",
-              node=fn.node, file=fn.file)
+              node=fn.node, file=fn.file,
+              instance=f"{fn.qual}: reported set power == request.power - remainder of the algorithm")
+    sd0 = prog.func(f"{BM}._set_distributed_power")
     calls = find_calls(fn.node, lambda c: method_call(c, "self", "_set_distributed_power"))
-    ok = len(calls) == 1 and u(calls[0].args[0]) == fn.params[2]
-    run.check(ok, "C01.B", fn.qual, "self._set_distributed_power(distribution, ...)",
+    ok = len(calls) == 1
+    if ok:
+        args = bound_args(calls[0], method_params(sd0), f"{fn.qual}: self._set_distributed_power(...)")
+        ok = u(args.get(typed(sd0, "DistributionResult", "distribution"))) == dist
+    run.check(ok, "C01.B", fn.qual, "self._set_distributed_power(<the computed distribution>, ...)",
               "the distribution handed to the API layer is not the one that was computed",
-              node=fn.node, file=fn.file)
-    gp = prog.func(f"{BM}._get_power_distribution")
+              node=fn.node, file=fn.file,
+              instance=f"{fn.qual}: the computed distribution is handed to _set_distributed_power")
+    gp = norm(f"{BM}._get_power_distribution")
     run.analysed(gp.qual)
+    gp_req = typed(gp, "Request", "request")
     calls = find_calls(gp.node, lambda c: method_call(c, "self._distribution_algorithm", "distribute_power"))
-    ok = len(calls) == 1 and te.ev(calls[0].args[0]) == Poly.atom("request.power") and len(calls[0].args) == 2
+    ok = len(calls) == 1
+    if ok:
+        args = bound_args(calls[0], method_params(prog.func(f"{BDA}.distribute_power")),
+                          f"{gp.qual}: distribute_power(...)")
+        ok = len(args) == 2 and "power" in args and te.ev(args["power"]) == Poly.atom(f"{gp_req}.power")
     run.check(ok, "C01.B", gp.qual, "distribute_power(request.power.as_watts(), pairs)",
               "the manager does not hand the requested power unchanged to the distribution algorithm",
-              node=gp.node, file=gp.file)
-    res_name = None
+              node=gp.node, file=gp.file,
+              instance=f"{gp.qual}: the requested power is handed unchanged to the algorithm")
+    # the algorithm's result is returned as it is: every return yields the call's value (directly or
+    # through the one local it is bound to) and nothing is stored into that object
+    gcfg = CFG(gp.node, gp.file)
+    res_names = set()
     for s2 in body_walk(gp.node):
-        if isinstance(s2, ast.Assign) and calls and s2.value is calls[0]:
-            res_name = u(s2.targets[0])
+        if isinstance(s2, ast.Assign) and calls and s2.value is calls[0] and len(s2.targets) == 1 \
+                and isinstance(s2.targets[0], ast.Name):
+            res_names.add(s2.targets[0].id)
+        elif isinstance(s2, ast.AnnAssign) and calls and s2.value is calls[0] and isinstance(s2.target, ast.Name):
+            res_names.add(s2.target.id)
     rets = [r for r in body_walk(gp.node) if isinstance(r, ast.Return)]
-    tampered = [s2 for s2 in body_walk(gp.node) if isinstance(s2, (ast.Assign, ast.AugAssign)) and any(
-        u(t).startswith(f"{res_name}.") or u(t).startswith(f"{res_name}[")
+    tampered = [s2 for s2 in body_walk(gp.node) if isinstance(s2, (ast.Assign, ast.AugAssign, ast.AnnAssign)) and any(
+        any(u(t).startswith(f"{rn}.") or u(t).startswith(f"{rn}[") for rn in res_names)
         for t in (s2.targets if isinstance(s2, ast.Assign) else [s2.target]))]
-    ok = res_name is not None and len(rets) == 1 and u(rets[0].value) == res_name and not tampered
+
+    def returns_call(r: ast.Return) -> bool:
+        if calls and r.value is calls[0]:
+            return True
+        if isinstance(r.value, ast.Name) and r.value.id in res_names:
+            sites = gcfg.nodes_of(r)
+            return bool(sites) and all(
+                len(d := reaching_defs(gcfg, x, r.value.id)) == 1
+                and plain_def_value(gcfg, d[0], r.value.id) is calls[0] for x in sites)
+        return False
+
+    ok = len(calls) == 1 and len(rets) >= 1 and all(returns_call(r) for r in rets) and not tampered
     run.check(ok, "C01.B", gp.qual, "the algorithm's result is returned untouched",
               "the manager rewrites the algorithm's set-points or remainder after the fact: what is "
               "reported as succeeded/excess no longer matches what is commanded", node=(tampered or [gp.node])[0],
-              file=gp.file)
-    gd = prog.func(f"{BM}._get_distribution")
+              file=gp.file, instance=f"{gp.qual}: the algorithm's result is returned untouched")
+    gd = norm(f"{BM}._get_distribution")
+    gd_req = typed(gd, "Request", "request")
+    gp0 = prog.func(f"{BM}._get_power_distribution")
     dcalls = find_calls(gd.node, lambda c: method_call(c, "self", "_get_power_distribution"))
-    ok = len(dcalls) == 1 and [u(a) for a in dcalls[0].args][:1] == [gd.params[1]]
+    ok = len(dcalls) == 1
+    if ok:
+        args = bound_args(dcalls[0], method_params(gp0), f"{gd.qual}: self._get_power_distribution(...)")
+        ok = u(args.get(typed(gp0, "Request", "request"))) == gd_req
     run.check(ok, "C01.B", gd.qual, "_get_power_distribution(request, ...)",
-              "the distribution is computed for a different request", node=gd.node, file=gd.file)
-    sd = prog.func(f"{BM}._set_distributed_power")
+              "the distribution is computed for a different request", node=gd.node, file=gd.file,
+              instance=f"{gd.qual}: the distribution is computed for the processed request")
+    sd = norm(f"{BM}._set_distributed_power")
     run.analysed(sd.qual)
+    sd_dist = typed(sd, "DistributionResult", "distribution")
     sp = find_calls(sd.node, lambda c: isinstance(c.func, ast.Attribute) and c.func.attr == "set_power")
     ok = False
     if len(sp) == 1:
-        for n in ast.walk(sd.node):
-            if isinstance(n, ast.DictComp) and any(x is sp[0] for x in ast.walk(n)):
-                g = n.generators[0]
-                ok = (len(n.generators) == 1 and not g.ifs and u(g.iter) == "distribution.distribution.items()"
-                      and [u(a) for a in sp[0].args] == [u(e) for e in g.target.elts])  # type: ignore[union-attr]
+        send = match_send(sd.node, sp[0])
+        ok = send["ok"] and send["map"] == f"{sd_dist}.distribution"
     run.check(ok, "C01.B", sd.qual, "api.set_power(inverter_id, power) for every item of the distribution",
               "the set-points commanded to the API are filtered or transformed relative to the "
-              "computed distribution (reported != commanded)", node=sd.node, file=sd.file)
+              "computed distribution (reported != commanded)", node=sd.node, file=sd.file,
+              instance=f"{sd.qual}: set_power(id, power) for every item of the distribution")
 
 
 MOD = "microgrid._power_distributing._distribution_algorithm._battery_distribution_algorithm"
